@@ -168,6 +168,34 @@ def _check_independent(what, result, operands, snaps_of):
                 raise Violation(f"{what}: an in-place edit of an operand is visible through the result")
 
 
+def _snap_foreign(r):
+    """contents of a result that is neither a DataFrame nor an ndarray (Arrow table, pandas frame, list of dicts, text)"""
+    if hasattr(r, "to_pydict"):
+        return repr(r.to_pydict())
+    if hasattr(r, "to_dict") and hasattr(r, "columns"):
+        return repr(r.to_dict("list"))
+    return repr(r)
+
+
+def _check_foreign_result(what, r, operands):
+    """an in-place edit of an operand must not show in an exported object (np.shares_memory cannot look into those)"""
+    before = _snap_foreign(r)
+    for op in operands:
+        for o in _columns(op):
+            if o.size == 0 or not o.flags.writeable:
+                continue
+            old = o[0]
+            try:
+                o[0] = _poke_value(o)
+            except Exception:
+                continue
+            seen = _snap_foreign(r) != before
+            o[0] = old
+            if seen:
+                raise Violation(f"{what}: an in-place edit of an operand is visible through the exported result",
+                                result=type(r).__name__, dtype=str(o.dtype))
+
+
 # -- frame calls --------------------------------------------------------------------------------
 
 class _ShouldHaveRaised(Exception):
@@ -186,6 +214,21 @@ def _stale_group(x, how):
         x._group_colnames = g0
         if rewritten:
             raise Violation(f"{how} rewrote the grouping of its receiver (a group column had been removed)")
+
+
+def _ungrouped_aggregate(x):
+    """aggregate on a frame that is not grouped: whether it fails or not, the receiver stays as it is"""
+    g0 = tuple(x._group_colnames)
+    x._group_colnames = ()
+    names = list(dict.keys(x))
+    try:
+        x.aggregate(n=di.count())
+        raise _ShouldHaveRaised()
+    finally:
+        x._group_colnames = g0
+        if list(dict.keys(x)) != names:
+            raise Violation("aggregate on an ungrouped frame left its receiver with other columns",
+                            before=names, after=list(dict.keys(x)))
 
 
 def _grouped_bad(x, bad):
@@ -223,7 +266,7 @@ def _call_frame(m, x, y, a):
                  lambda: x.filter(np.ones(n + 1, dtype=bool)), lambda: x.modify(new=np.arange(n + 2)), lambda: x.unique(bad),
                  lambda: x.drop_na(bad), lambda: x.cbind(di.DataFrame(zz=np.arange(n + 2))), lambda: x.count(), lambda: x.anti_join(y, bad),
                  lambda: x.update(di.DataFrame(zz=np.arange(n + 2))), lambda: x.slice(rows=[n + 5]),
-                 lambda: _stale_group(x, "aggregate"), lambda: _stale_group(x, "modify")]
+                 lambda: _stale_group(x, "aggregate"), lambda: _stale_group(x, "modify"), lambda: _ungrouped_aggregate(x)]
         calls[(a * 7 + n + len(names)) % len(calls)]()              # spread over all variants (a is 0 .. 7)
         raise _ShouldHaveRaised()
     if m == "filter_out": return x.filter_out(lambda d: np.array([i % 2 == a % 2 for i in range(d.nrow)], dtype=bool))
@@ -374,6 +417,8 @@ def _check_frame(plan, ctx):
         for r in results:
             if isinstance(r, (di.DataFrame, np.ndarray)):
                 _check_independent(m, r, operands, build.snap_frame)
+            elif m in ("to_arrow", "to_pandas", "to_list_of_dicts", "to_json"):
+                _check_foreign_result(m, r, operands)
         if isinstance(res, di.DataFrame):
             if res.nrow and res.ncol:
                 ctx.cls("result_with_data")
